@@ -168,6 +168,16 @@ PROPS["C11"] = {
                     "the episode starts from a readable state of this release (any content): every call has loaded the state at least once after init"],
 }
 
+PROPS["C04"] = {
+    "kind": "crash",
+    "modules": ["C04"], "required_theorems": ["crash_safe", "recover_facts", "launch_files_ok", "segs_op", "crashPairs_pjok", "crash_safe_not_banned"],
+    "monitors": ["C04"],
+    "assumptions": ["process death = the process stops between two of its file-system calls, or half-way through a write; every completed call is durable and ordered (no fsync in the code: loss or reordering of completed writes by the kernel / file system below is outside the model)",
+                    "a state file that is being rewritten is unreadable (empty or cut short) until the write completes: serde_json rejects every proper prefix of the documents involved",
+                    "the next launch passes the same release version as the interrupted one (any other version discards the state by C08)",
+                    "single I/O errors with continued execution (the property's second sentence) are exercised on the real library by the interposer in thorough runs but are NOT covered by the theorem"],
+}
+
 # Properties whose theorems are still being written: monitors + correspondence only (not in MANIFEST).
 for _p, _mon, _camp in [
     ("C01", ["C01"], camp(LIFE_Q, LIFE_T)), ("C03", ["C03"], camp(LIFE_Q, LIFE_T)), ("C05", ["C05"], camp(LIFE_Q, LIFE_T)),
